@@ -1,7 +1,9 @@
 import DepsDev.Proofs.C02NuGet
 import DepsDev.Proofs.C02Gem
 import DepsDev.Proofs.C02Pep
-import DepsDev.Proofs.C02MvnDirect
+import DepsDev.Proofs.C02MvnShape
+import DepsDev.Proofs.C02Mvn39
+import DepsDev.Props.C01Maven
 
 /-!
 # C02 — version ordering agrees with each ecosystem's own implementation
@@ -315,6 +317,53 @@ theorem maven_agree_keyorder (a b : MavenCV.Ast) (ha : MavenDomain a) (hb : Mave
   have h := ref_compare (goodAst_of_domain_key ha za) (goodAst_of_domain_key hb zb)
   exact ⟨h, h ▸ maven_agree (goodAst_of_domain_key ha za) (goodAst_of_domain_key hb zb)⟩
 
+/-- The library's version of every tree of DESIGN 6.4 lies in C01's `InShape` (`MavenShape` on the
+elements), and C01's `ZeroDotQual` on its elements is `Maven.zeroDotQual` on the tree: the domain
+of `maven_agree_keyorder` is C01's `InDomain`, pulled back along `embedMaven`. -/
+theorem maven_embed_inShape (a : MavenCV.Ast) (hv : a.valid = true) :
+    C01Maven.InShape (embedMaven a) ∧
+      ZeroDotQual (C01Maven.mavenElems (embedMaven a)) = Maven.zeroDotQual a :=
+  ⟨⟨⟨rfl, _, rfl⟩, elems_shape hv⟩, elems_zeroDotQual hv⟩
+
+theorem maven_embed_inDomain (a : MavenCV.Ast) (hv : a.valid = true) (hz : Maven.NoZeroDotQual a) :
+    C01Maven.InDomain (embedMaven a) :=
+  ⟨⟨rfl, _, rfl⟩, elems_shape hv, (elems_zeroDotQual hv).trans hz⟩
+
+/-! ### Maven 3.8.7 / 3.9.x (`Ref/MavenExt39.lean`) -/
+
+/-- Hypothesis clause for the 3.9 semantics: the qualifier is not attached with a dot. -/
+@[reducible] def Maven.NoDotQual (a : MavenCV.Ast) : Prop := Maven.dotQual a = false
+
+/-- **Maven 3.8.7 / 3.9.x**: the one change of `parseVersion` only concerns dot-attached words, so on
+the versions of `MavenDomain` whose qualifier is attached with `-` or directly (`1.0-rc-1`,
+`1.0rc1`, `3.0.0-SNAPSHOT`, plain numbers) the library's comparison has the sign of the 3.9
+`ComparableVersion` too. -/
+theorem maven39_agree_partial :
+    Agrees embedMaven MavenCV39.compare (fun a => MavenDomain a ∧ Maven.NoDotQual a) := by
+  intro a b ⟨ha, da⟩ ⟨hb, db⟩
+  rw [compare39_eq a b ha.1.1 hb.1.1 da db]
+  exact maven_agree_partial a b ha hb
+
+/-- With a dot-attached qualifier the library follows 3.8.6, not 3.9: `1.alpha < 1-alpha` in the
+library and in `Ref.MavenCV` (a string item is below a list item), equal in 3.9 (`.X` is read as
+`-X`). The library documents this choice ("roughly equivalent to v3.6.0 / v3.8.6"). -/
+theorem maven39_dot_qual_differs :
+    vcompare (embedMaven { nums := [1], qual := some (.dot, MavenCV.wAlpha) })
+        (embedMaven { nums := [1], qual := some (.dash, MavenCV.wAlpha) }) = .ok (-1) ∧
+      MavenCV.compare { nums := [1], qual := some (.dot, MavenCV.wAlpha) } { nums := [1], qual := some (.dash, MavenCV.wAlpha) } = .lt ∧
+      MavenCV39.compare { nums := [1], qual := some (.dot, MavenCV.wAlpha) } { nums := [1], qual := some (.dash, MavenCV.wAlpha) } = .eq ∧
+      MavenDomain { nums := [1], qual := some (.dot, MavenCV.wAlpha) } ∧
+      ¬ Maven.NoDotQual { nums := [1], qual := some (.dot, MavenCV.wAlpha) } := by
+  refine ⟨by decide +kernel, by decide +kernel, by decide +kernel, by decide, by decide⟩
+
+/-- Hence the 3.9 statement on all of `MavenDomain` is false; `Maven.NoDotQual` is the clause that fails. -/
+theorem maven39_agree_false_dot_qual : ¬ Agrees embedMaven MavenCV39.compare MavenDomain := by
+  intro h
+  have h1 := h { nums := [1], qual := some (.dot, MavenCV.wAlpha) } { nums := [1], qual := some (.dash, MavenCV.wAlpha) }
+    (by decide) (by decide)
+  rw [maven39_dot_qual_differs.1, maven39_dot_qual_differs.2.2.1] at h1
+  revert h1; decide
+
 /-- The elements of the library's version of a tree of the domain, in closed form: the first
 number, the other numbers (trailing zeros dropped when nothing or a `-` element follows), then
 the qualifier unless `ga`/`final`/`release`, its number unless `0`, and `-snapshot`. -/
@@ -396,6 +445,14 @@ example : compareStr .maven "1.0-rc-1".toUTF8.toList "1.0".toUTF8.toList = .ok (
     parse .maven (MavenCV.render mvRc1) = .ok (embedMaven mvRc1) ∧
     parse .maven (MavenCV.render mvSnap) = .ok (embedMaven mvSnap) := by
   decide +kernel
+
+/-- `maven39_agree_partial` on `1.0-rc-1 < 1.0` and `2.0.1-a1 = 2.0.1-alpha-1`. -/
+example : vcompare (embedMaven mvRc1) (embedMaven mv10) = .ok (ordToInt (MavenCV39.compare mvRc1 mv10)) ∧
+    MavenCV39.compare mvRc1 mv10 = .lt ∧ MavenCV39.compare mvA1 mvAlpha1 = .eq :=
+  ⟨maven39_agree_partial _ _ ⟨mvRc1_dom, by decide⟩ ⟨mv10_dom, by decide⟩, by decide +kernel, by decide +kernel⟩
+
+/-- `maven_embed_inDomain`: `1.0-rc-1` as a version is in C01's `InDomain`. -/
+example : C01Maven.InDomain (embedMaven mvRc1) := maven_embed_inDomain mvRc1 (by decide) (by decide)
 
 /-- `maven_elems_closed`: `3.0.0-beta` is `3`, `-beta`. -/
 example : (embedMaven mvBeta).ext = .maven [numE 0 3, ⟨45, MavenCV.wBeta, 0⟩] :=
